@@ -160,6 +160,13 @@ func (r *Run) flush() {
 			if i := strings.IndexByte(e.Subj, '.'); i > 0 {
 				typ, rest = e.Subj[:i], e.Subj[i+1:]
 			}
+			if strings.HasPrefix(e.Subj, "_QUERY_") {
+				// query request: subject _QUERY_<resource>_<seq>
+				typ = "query"
+				if f := strings.Split(e.Subj, "_"); len(f) >= 4 {
+					rest = "test.r" + f[2]
+				}
+			}
 			name, method := rest, "-"
 			if typ == "call" || typ == "auth" {
 				if j := strings.LastIndexByte(rest, '.'); j > 0 {
@@ -175,7 +182,11 @@ func (r *Run) flush() {
 				q = fmt.Sprintf("%x", r.W.Anon(p.Query))
 			}
 			r.reqKind[e.N] = typ
-			r.Lines = append(r.Lines, strings.Join([]string{"MQREQ", strconv.Itoa(e.N), typ, AbsRID(name), method, cid, tokenAbs(p.Token), q, fmt.Sprintf("%x", r.W.Anon(e.Subj))}, "\t"))
+			ridAbs := AbsRID(name)
+			if p.Query != "" && (typ == "get" || typ == "query") {
+				ridAbs = AbsRID(name + "?" + p.Query)
+			}
+			r.Lines = append(r.Lines, strings.Join([]string{"MQREQ", strconv.Itoa(e.N), typ, ridAbs, method, cid, tokenAbs(p.Token), q, fmt.Sprintf("%x", r.W.Anon(e.Subj))}, "\t"))
 		case "sched":
 			r.Lines = append(r.Lines, "SCHED\t"+e.Text)
 		case "site":
@@ -188,6 +199,13 @@ func (r *Run) flush() {
 			r.Lines = append(r.Lines, "HTTP\t"+e.C+"\t"+fmt.Sprintf("%x", e.Subj))
 		case "httpresp":
 			r.Lines = append(r.Lines, "HTTPRESP\t"+e.C+"\t"+strconv.Itoa(e.N)+"\t"+fmt.Sprintf("%x", e.Subj)+"\t"+fmt.Sprintf("%x", r.W.Anon(e.Text)))
+		case "qvariants":
+			var vs []string
+			for _, v := range strings.Fields(e.Text) {
+				vs = append(vs, AbsRID(v))
+			}
+			sort.Strings(vs)
+			r.Lines = append(r.Lines, "QVARIANTS\t"+AbsRID(e.Subj)+"\t"+strings.Join(vs, ","))
 		case "stop":
 			r.Lines = append(r.Lines, "STOP\t"+e.Subj+"\t"+e.Text)
 		case "mqclose":
